@@ -34,8 +34,10 @@ CHECK = {
              'storage >= (cap+1)*elem, constructor/destructor slot and priv). '
              'A case is distinct by (element size, operation, argument class, state class before the call; for swap: both '
              'element sizes, both state classes, argument order); all are '
-             'non-trivial.'),
-    'assumptions': ['the allocator refuses every request above 64 MiB (vrt_alloc_cap); failpoints make every allocation request fail for one call',
+             'non-trivial.'
+             ' Plus (harness/huge.c, the library as shipped without sanitizer) vectors of 2^31+12 and (thorough) 2^32+12 one-byte elements with constructor/destructor: call counts equal the number of elements entering/leaving for grow, shrink, re-grow inside the capacity and clear, every element scanned for its constructed/destroyed mark; and untouched vectors of 1/8/24-byte elements whose byte size passes 2^32 and 2^34: at(i) == data()+i*elem for indices around 2^31 and 2^32, at(size) and at(size+2^32) abort, storage is a live block of >= capacity*elem bytes, shrink_to_fit and swap keep the geometry.'),
+    'assumptions': ['the huge scenarios need 3-12 GiB of free memory; one that the machine cannot back (MemAvailable too small, or the C library refuses the request) is skipped and counted (huge.skipped.*), nothing is concluded from it',
+                    'the allocator refuses every request above 64 MiB (vrt_alloc_cap); failpoints make every allocation request fail for one call',
                     'element counts that are really constructed stay <= 4096; one real 64 MiB reserve per matrix cell',
                     'swap only between two distinct vector objects (never self-swap); they may differ in element size, constructor/destructor and priv',
                     'the comparison function is memcmp over the element bytes (a total order), so the sorted image is unique',
@@ -51,6 +53,8 @@ CHECK = {
         # runtime TUs are therefore compiled without fake-stack frames; the library TUs keep them.
         {'harness': 'vector', 'sources': ['harness/vector.c'], 'configs': both(['dbg-asan', 'rel-asan']),
          'cflags': ['--param', 'asan-use-after-return=0']},
+        # objects of 2^31 .. 2^33 elements, the library as shipped (no sanitizer), own oracles (harness/huge.c)
+        {'harness': 'huge', 'sources': ['harness/huge.c'], 'mode': 'vector', 'configs': both(['rel-huge']), 'workers': 3},
     ],
 }
 
